@@ -73,6 +73,15 @@ def run_geom_case(ctx, case):
     rng = np.random.default_rng(seed)
     g = Geom(nrows, ncols, xll, yll, csz)
     gr = Grid("g", ncols, nrows, cellsize=csz, xllcorner=xll, yllcorner=yll)
+    path = seed % 4
+    if path == 1:
+        gr = Grid.from_dict(gr.to_dict())
+    elif path == 2:
+        gr = gr.clone(np.int32)
+    elif path == 3:
+        gr = Grid("g", ncols, nrows, cellsize=csz, xllcorner=xll, yllcorner=yll,
+                  dtype=np.uint8).clone()
+    ctx.tag(f"construction-path:{path}")
     ctx.evaluated()
     if nrows == 1:
         ctx.tag("grid:1row")
